@@ -304,7 +304,7 @@ fn minmax_order_cases(run: &mut Run, rng: &mut Rng, n: usize) {
         let vals: Vec<&str> = (0..k).map(|_| *rng.pick(POOL)).collect();
         let text: String = vals.iter().map(|v| format!("r={}\n", v)).collect();
         let desc = format!("defs={} values in line order {:?}", DEF, vals);
-        let (pg, pm) = match (prepare(DEF, "SELECT r FROM t GROUP BY r"), prepare(DEF, "SELECT MIN(r) AS lo, MAX(r) AS hi, PERCENTILE(r, 0.0) AS p0, PERCENTILE(r, 1.0) AS p1 FROM t")) { (Ok(a), Ok(b)) => (a, b), _ => { run.count("minmax:rejected"); continue; } };
+        let (pg, pm) = match (prepare(DEF, "SELECT r, COUNT(*) AS n FROM t GROUP BY r"), prepare(DEF, "SELECT MIN(r) AS lo, MAX(r) AS hi, PERCENTILE(r, 0.0) AS p0, PERCENTILE(r, 1.0) AS p1 FROM t")) { (Ok(a), Ok(b)) => (a, b), _ => { run.count("minmax:rejected"); continue; } };
         let groups = run_files(&pg, &[text.clone().into_bytes()]);
         let mm = run_files(&pm, &[text.clone().into_bytes()]);
         run.oracle_checks += 1;
